@@ -346,6 +346,16 @@ func C05(c *core.Ctx) {
 // c05SameClient: Connect, honest Handshake, Reconnect, Handshake against a peer that replays
 // the HELO and PONG of the first one.  crypto/rand is one continuing deterministic stream.
 func c05SameClient(c *core.Ctx, r *rand.Rand, hc hsCase) {
+	for _, first := range []string{"honest", "interrupted", "wrong-digest", "auth-false", "garbage-pong"} {
+		c05SameClientVariant(c, r, hc, first)
+	}
+}
+
+// first: how the FIRST handshake of the client ends — honest: completed; interrupted: the connection ends
+// after the PING was written (the honest server's PONG for it, which the adversary has seen, is never
+// delivered); wrong-digest / auth-false / garbage-pong: the PONG is rejected.  In every variant the second
+// handshake (after Reconnect) is answered with the PONG an honest server produced for the FIRST one.
+func c05SameClientVariant(c *core.Ctx, r *rand.Rand, hc hsCase, first string) {
 	if len(hc.key) == 0 {
 		return
 	}
@@ -365,8 +375,24 @@ func c05SameClient(c *core.Ctx, r *rand.Rand, hc hsCase) {
 	f.Setup = func(cn *fakes.Conn) {
 		cn.Script = []fakes.ReadStep{{Data: helo}}
 		cn.OnWrite = func(idx int, b []byte) (int, error) {
-			if idx == 0 {
-				cn.Script = append(cn.Script, fakes.ReadStep{Data: pong1}) // the replayed PONG of handshake 1
+			if idx != 0 {
+				return len(b), nil
+			}
+			answer := pong1 // the PONG of handshake 1 (replayed when this is the second connection)
+			if cn.ID == 0 {
+				switch first {
+				case "interrupted":
+					answer = nil // EOF
+				case "wrong-digest":
+					answer = mustMarshal(&protocol.Pong{MessageType: "PONG", AuthResult: true, ServerHostname: string(hc.shost), SharedKeyHexDigest: sha512hex(salt1, hc.shost, hc.nonce, append(append([]byte{}, hc.key...), 'x'))})
+				case "auth-false":
+					answer = mustMarshal(&protocol.Pong{MessageType: "PONG", AuthResult: false, Reason: "no", ServerHostname: string(hc.shost), SharedKeyHexDigest: sha512hex(salt1, hc.shost, hc.nonce, hc.key)})
+				case "garbage-pong":
+					answer = []byte{0x95, 0xa4, 'P', 'O', 'N', 'G', 0xc1}
+				}
+			}
+			if answer != nil {
+				cn.Script = append(cn.Script, fakes.ReadStep{Data: answer})
 			}
 			return len(b), nil
 		}
@@ -376,22 +402,30 @@ func c05SameClient(c *core.Ctx, r *rand.Rand, hc hsCase) {
 	if err := cl.Connect(); err != nil {
 		return
 	}
-	err1 := cl.Handshake()
+	var err1 error
+	if p := safely(func() { err1 = cl.Handshake() }); p != nil {
+		c.Violation("panic", "c05-panic:same-client", "Handshake panicked in the first handshake of one client ("+first+")", nil)
+		return
+	}
 	tp1 := cl.TransportPhase()
 	_ = cl.Reconnect()
 	var err2 error
 	p := safely(func() { err2 = cl.Handshake() })
 	tp2 := cl.TransportPhase()
 	c.Eval()
-	c.Hist(fmt.Sprintf("same client: first ok=%v, replayed second ok=%v", err1 == nil, err2 == nil))
+	c.Hist(fmt.Sprintf("same client: first (%s) ok=%v, replayed second ok=%v", first, err1 == nil, err2 == nil))
 	replay := map[string]interface{}{"key": hx(hc.key), "client_host": hx(hc.chost), "server_host": hx(hc.shost), "nonce": trunc(hx(hc.nonce), 80),
-		"sequence": "Connect; Handshake(honest); Reconnect; Handshake(peer replays the HELO and PONG bytes of the first handshake)"}
+		"sequence": "Connect; Handshake(" + first + "); Reconnect; Handshake(peer repeats the HELO and answers with the PONG an honest server made for the first handshake)"}
 	if p != nil {
 		c.Violation("panic", "c05-panic:same-client", "Handshake panicked in the second handshake of one client", replay)
 		return
 	}
-	if err1 != nil || !tp1 {
+	if first == "honest" && (err1 != nil || !tp1) {
 		c.Violation("judge-go", "c05-honest-rejected", "an honest peer holding the key was rejected (first handshake of the client)", replay)
+		return
+	}
+	if first != "honest" && (err1 == nil || tp1) {
+		c.Violation("judge-go", "c05-accepted:"+first, "the first handshake of the client ("+first+") brought it into transport phase", replay)
 		return
 	}
 	if tp2 || err2 == nil {
